@@ -964,6 +964,9 @@ class Wrapc(util.WrapperMixin):
                         fmt_func.namespace_scope + fmt_func.class_scope
                     )
                 else:
+                    if fmt_func.inlocal("CXX_this"):
+                        # CXX_this is set for this function.
+                        fmt_func.CXX_this_call = fmt_func.CXX_this + "->"
                     # 'this' argument, always a pointer to a shadow type.
                     proto_list.append( "{}{} * {}".format(
                         fmt_func.c_const,
